@@ -61,7 +61,165 @@ fn run_strong(e: &Sexp) -> R<Sexp> {
     texts_of(&(strong_op().run)(e)?)
 }
 fn gen_external(rng: &mut Rng) -> Sexp {
-    if rng.chance(70) { (external_op().generate)(rng) } else { (external_small_op().generate)(rng) }
+    let case = if rng.chance(70) { (external_op().generate)(rng) } else { (external_small_op().generate)(rng) };
+    // 30 %: the clash shapes of `rename_conflicting_symbols` inside the proof outline (see clash_variant)
+    if rng.chance(30) { clash_variant(rng, case) } else { case }
+}
+
+// ---------------------------------------------------------------- symbol / 0-ary predicate clashes
+/// `(sy "from")` -> `(sy "to")` everywhere in `e` (formulas and programs use the same constructor)
+fn rename_symbol(e: &Sexp, from: &str, to: &str) -> Sexp {
+    match e {
+        Sexp::L(v) => match e.tag() {
+            Some(("sy", [Sexp::S(x)])) if x == from => tagged("sy", vec![s(to)]),
+            _ => l(v.iter().map(|x| rename_symbol(x, from, to)).collect()),
+        },
+        _ => e.clone(),
+    }
+}
+fn visit<'a>(e: &'a Sexp, f: &mut dyn FnMut(&'a Sexp)) {
+    f(e);
+    if let Sexp::L(v) = e {
+        for x in v {
+            visit(x, f);
+        }
+    }
+}
+/// predicates (name, arity) of the task: formula atoms `(P "p" t..)`, program atoms
+/// `(basic|choice|pos|neg|nneg ("p" t..))`, user-guide declarations `(input|output ("p" n))`
+fn task_predicates(parts: &[Sexp]) -> Vec<(String, usize)> {
+    let mut out: Vec<(String, usize)> = vec![];
+    for part in parts {
+        visit(part, &mut |x| {
+            let found = match x.tag() {
+                Some(("P", [Sexp::S(p), args @ ..])) => Some((p.clone(), args.len())),
+                Some(("basic" | "choice" | "pos" | "neg" | "nneg", [Sexp::L(atom)])) => match atom.as_slice() {
+                    [Sexp::S(p), args @ ..] => Some((p.clone(), args.len())),
+                    _ => None,
+                },
+                Some(("input" | "output", [Sexp::L(d)])) => match d.as_slice() {
+                    [Sexp::S(p), Sexp::A(n)] => n.parse().ok().map(|n| (p.clone(), n)),
+                    _ => None,
+                },
+                _ => None,
+            };
+            if let Some(p) = found {
+                if !out.contains(&p) {
+                    out.push(p);
+                }
+            }
+        });
+    }
+    out
+}
+
+/// A task whose PROOF OUTLINE mentions a symbolic constant named like a 0-ary predicate of the task
+/// (the clash `Problem::rename_conflicting_symbols` resolves by renaming the constant `c` to `c__s`
+/// in every formula of the problem, conjecture included).  `case` is a generated task; the variant
+///   * picks the clashing name `c`: a 0-ary predicate of the task (`in2`, `out2`, `r`, ..), or `d`
+///     (then the 0-ary predicate occurs in the outline only: in a lemma, i.e. in the CONJECTURE of an
+///     outline problem and in the premises of the later ones);
+///   * renames the constant `a` (or `b`) to `c` in the outline only / in the whole task / in the
+///     programs, specification and user guide only (the constant then reaches the outline problems
+///     through the premises);
+///   * 20 %: renames the other constant to `c__s` (the renamed constant meets an existing constant);
+///   * adds 1-3 outline entries that mention `c` as a constant, next to the 0-ary predicate `c` or
+///     alone: lemmas, inductive lemmas (base and step share the premises), a definition with a
+///     lemma that uses it; directions universal / forward / backward.
+fn clash_variant(rng: &mut Rng, case: Sexp) -> Sexp {
+    let Some(("external", parts)) = case.tag() else { return case };
+    if parts.len() != 10 {
+        return case;
+    }
+    let mut parts: Vec<Sexp> = parts.to_vec();
+    let preds = task_predicates(&parts[0..4]);
+    let zero: Vec<&str> = preds.iter().filter(|(_, n)| *n == 0).map(|(p, _)| p.as_str()).collect();
+    let wide: Vec<(&str, usize)> = preds.iter().filter(|(p, n)| *n >= 1 && p != "aux").map(|(p, n)| (p.as_str(), *n)).collect();
+    let c: String = if !zero.is_empty() && rng.chance(75) { rng.pick(&zero).to_string() } else { "d".to_string() };
+    let (from, other) = if rng.chance(70) { ("a", "b") } else { ("b", "a") };
+    let scope = rng.weighted(&[45, 40, 15]);
+    let merged = rng.chance(20);
+    for (i, part) in parts.iter_mut().enumerate().take(4) {
+        let here = match scope {
+            0 => i == 3,
+            1 => true,
+            _ => i != 3,
+        };
+        if here {
+            *part = rename_symbol(part, from, &c);
+            if merged {
+                *part = rename_symbol(part, other, &format!("{c}__s"));
+            }
+        }
+    }
+    // the added entries
+    let sym = |x: &str| tagged("sy", vec![s(x)]);
+    let zero_atom = |x: &str| tagged("P", vec![s(x)]);
+    let mention = |rng: &mut Rng, x: &str| -> Sexp {
+        // an atom that has the constant `x` as an argument, or a comparison with it
+        if !wide.is_empty() && rng.chance(75) {
+            let (p, n) = *rng.pick(&wide);
+            let k = rng.below(n);
+            let mut items = vec![s(p)];
+            for i in 0..n {
+                items.push(if i == k { sym(x) } else { tagged("gv", vec![s("X")]) });
+            }
+            tagged("P", items)
+        } else {
+            tagged("C", vec![tagged("gv", vec![s("X")]), l(vec![a(*rng.pick(&["eq", "ne", "le"])), sym(x)])])
+        }
+    };
+    let dir = |rng: &mut Rng| a(*rng.pick(&["universal", "universal", "forward", "backward"]));
+    let name = |rng: &mut Rng| s(*rng.pick(&["", "l", "d", "lemma_1", "unnamed_formula"]));
+    let rels = ("ge", "gt", "eq");
+    let mut entries: Vec<Sexp> = vec![];
+    let n = 1 + rng.below(3);
+    for _ in 0..n {
+        let m = mention(rng, &c);
+        let m = if merged && rng.chance(50) { tagged("or", vec![m, mention(rng, &format!("{c}__s"))]) } else { m };
+        // the constant alone / next to the 0-ary predicate of the same name
+        let body = match rng.weighted(&[4, 3, 2, 1]) {
+            0 => m,
+            1 => tagged("imp", vec![zero_atom(&c), m]),
+            2 => tagged("or", vec![tagged("not", vec![zero_atom(&c)]), m]),
+            _ => tagged("and", vec![m, tagged("not", vec![tagged("not", vec![zero_atom(&c)])])]),
+        };
+        match rng.weighted(&[5, 3, 2]) {
+            0 => entries.push(tagged("af", vec![a("lemma"), dir(rng), name(rng), body])),
+            1 => {
+                // inductive lemma  N >= k -> F and N > -5 (closed by anthem): two conjectures over the same premises
+                let nv = tagged("iv", vec![s("N")]);
+                let ante = tagged("C", vec![nv.clone(), l(vec![a(rels.0), tagged("n", vec![a(&rng.range(-1, 2).to_string())])])]);
+                let occ = tagged("C", vec![nv, l(vec![a(rels.1), tagged("n", vec![a("-5")])])]);
+                let f = tagged("imp", vec![ante, tagged("and", vec![body, occ])]);
+                entries.push(tagged("af", vec![a("inductive-lemma"), dir(rng), name(rng), f]));
+            }
+            _ => {
+                // definition  forall X (aux3(X) <-> X = c [or c/0]), then a lemma about aux3(c)
+                let x = tagged("gv", vec![s("X")]);
+                let eq = tagged("C", vec![x.clone(), l(vec![a(rels.2), sym(&c)])]);
+                let rhs = if rng.chance(40) { tagged("or", vec![eq, zero_atom(&c)]) } else { eq };
+                let def = tagged("forall", vec![l(vec![l(vec![s("X"), a("g")])]), tagged("iff", vec![tagged("P", vec![s("aux3"), x]), rhs])]);
+                let d = dir(rng);
+                entries.push(tagged("af", vec![a("definition"), d.clone(), name(rng), def]));
+                let use_it = tagged("P", vec![s("aux3"), sym(&c)]);
+                let use_it = if rng.chance(50) { use_it } else { tagged("imp", vec![body, use_it]) };
+                entries.push(tagged("af", vec![a("lemma"), if rng.chance(70) { d } else { dir(rng) }, name(rng), use_it]));
+                break;
+            }
+        }
+    }
+    if let Some(("spec", old)) = parts[3].tag() {
+        let mut all: Vec<Sexp> = old.to_vec();
+        if rng.chance(50) {
+            all.extend(entries);
+        } else {
+            entries.extend(all);
+            all = entries;
+        }
+        parts[3] = tagged("spec", all);
+    }
+    tagged("external", parts)
 }
 fn run_external(e: &Sexp) -> R<Sexp> {
     texts_of(&(external_op().run)(e)?)
